@@ -65,12 +65,16 @@ theorem SameCtl.trans {a b c : HState} (h1 : SameCtl a b) (h2 : SameCtl b c) : S
   obtain ⟨b1, b2, b3, b4, b5⟩ := h2
   exact ⟨b1.trans a1, b2.trans a2, b3.trans a3, b4.trans a4, b5.trans a5⟩
 
+/-- as the code is: nothing raised while a coroutine sink schedules its task is swallowed -/
+theorem asyncSwallows_false (e : Err) : Gen.asyncScheduleSwallows e = false := by
+  cases e <;> rfl
+
 theorem rawWrite_ctl (env : Env) (c : Cfg) (i : Nat) (s : HState) :
     SameCtl s (rawWrite env c i s).1 ∧ (rawWrite env c i s).2 ≠ .blocked ∧
     (rawWrite env c i s).1.queue = s.queue := by
   unfold rawWrite SameCtl
   split
-  · simp
+  · simp [asyncSwallows_false]
   · split
     · split <;> simp
     · simp only [Gen.streamFlushAfterWrite, if_true]
@@ -182,7 +186,7 @@ theorem locked_eq (env : Env) (c : Cfg) (i : Nat) (inner : Nat → Step) (s : HS
   simp only [hre, runInner, Gen.streamFlushAfterWrite, Gen.markerResetInFinally]
   cases stopped <;> simp
   cases c.enqueue <;> simp
-  · cases env.fault i c.id .write <;> simp
+  · cases env.fault i c.id .write <;> simp [asyncSwallows_false]
     cases c.kind <;> simp
     · cases env.fault i c.id .flush <;> simp
     · cases env.loop i <;> simp
@@ -395,7 +399,7 @@ theorem rawWrite_sink (env : Env) (c : Cfg) (i : Nat) (s : HState) :
     (rawWrite env c i s).1.sink = s.sink ++ workerWrites env c (.msg i) := by
   unfold rawWrite workerWrites
   cases hf : env.fault i c.id .write with
-  | some e => simp [hf]
+  | some e => simp [hf, asyncSwallows_false]
   | none =>
     cases hk : c.kind <;> simp [Gen.streamFlushAfterWrite, hf]
     · cases env.fault i c.id .flush <;> simp
@@ -760,7 +764,7 @@ theorem rawWrite_res (env : Env) (c : Cfg) (i : Nat) (s s' : HState) :
     (rawWrite env c i s).2 = (rawWrite env c i s').2 := by
   unfold rawWrite
   split
-  · rfl
+  · simp [asyncSwallows_false]
   · split
     · rfl
     · simp only [Gen.streamFlushAfterWrite, if_true]
